@@ -411,3 +411,97 @@ def inline_value_arg_sets():
         an._scenario = {"want": want}
         out.append({"self": an, "signal_ref": N.SignalRef("signal-A", "n")})
     return out
+
+
+# =================================================================================================
+# SignalAnalyzer.analyze — who reads what (C13 / C03 / C06 / C20): for every IR node, each reference among its operands names the node
+# as a CONSUMER of the reference's producer; values a gate or an entity reads FROM A WIRE — the data and the enable of a memory write,
+# the value of an entity property — are also EXPORTS, so an anonymous constant there exists as a combinator (a constant that only
+# feeds combinator operands is inlined and has none); a named value nothing reads is an output.
+# Evaluated on the REAL method over an enumerated box (one consumer node of every kind over anonymous / declared constants): bounded.
+# =================================================================================================
+ANQ = "dsl_compiler/src/layout/signal_analyzer.py::SignalAnalyzer.analyze"
+
+
+def _analyze_post(a, res):
+    sc = a.self._scenario
+    ok = []
+    for src, want in sc["consumers"].items():
+        ok.append(src in res and set(res[src].consumers) == set(want))
+    for src, exported in sc["exported"].items():
+        ok.append(bool(res[src].export_targets) == exported)
+    for src, mat in sc["materialised"].items():
+        ok.append(res[src].should_materialize is mat)
+    return all(ok)
+
+
+analyze_c = Contract(qualname=ANQ, params={"self": ty.TOpaque("analyzer"), "ir_operations": ty.TOpaque("ir")},
+                     ensures=[("every operand reference makes its node a consumer; what is read from a wire (write data, write enable, entity property) is exported and so materialised; "
+                               "an anonymous constant that only feeds combinator operands is inlined", _analyze_post)],
+                     verify=False, properties=("C13", "C03", "C06"), note="evaluated on the real method over an enumerated box (bounded stand-in)")
+CONTRACTS.append(analyze_c)
+
+
+def analyze_arg_sets():
+    from dsl_compiler.src.common.diagnostics import ProgramDiagnostics
+    from dsl_compiler.src.ir.nodes import IRArith, IRConst, IRDecider, IREntityPropWrite, IRMemWrite, IRWireMerge, SignalRef
+    from dsl_compiler.src.layout.signal_analyzer import SignalAnalyzer
+    out = []
+
+    def const(nid, t, v, declared):
+        c = IRConst(nid, t)
+        c.value = v
+        if declared:
+            c.debug_metadata["user_declared"] = True
+            c.debug_label = "named"
+        return c
+
+    for declared in (False, True):
+        for kind in ("arith", "decider", "merge", "write-data", "write-enable", "write-both", "entity-enable", "entity-other", "two-consumers"):
+            a_, b_ = const("c_a", "signal-A", 5, declared), const("c_b", "signal-W" if kind.startswith("write") else "signal-B", 1, declared)
+            ra, rb = SignalRef("signal-A", "c_a"), SignalRef(b_.output_type, "c_b")
+            ops_ = [a_, b_]
+            cons = {"c_a": set(), "c_b": set()}
+            exp = {"c_a": False, "c_b": False}
+            if kind in ("arith", "two-consumers"):
+                n = IRArith("n1", "signal-C")
+                n.op, n.left, n.right = "+", ra, rb
+                ops_.append(n)
+                cons["c_a"].add("n1"), cons["c_b"].add("n1")
+                if kind == "two-consumers":
+                    w = IREntityPropWrite("lamp", "enable", rb)
+                    ops_.append(w)
+                    cons["c_b"].add(w.node_id)
+                    exp["c_b"] = True
+            elif kind == "decider":
+                n = IRDecider("n1", "signal-C")
+                n.test_op, n.left, n.right, n.output_value = ">", ra, rb, 1
+                ops_.append(n)
+                cons["c_a"].add("n1"), cons["c_b"].add("n1")
+            elif kind == "merge":
+                n = IRWireMerge("n1", "signal-A")
+                n.add_source(ra), n.add_source(rb)
+                ops_.append(n)
+                cons["c_a"].add("n1"), cons["c_b"].add("n1")
+            elif kind.startswith("write"):
+                data = ra if kind in ("write-data", "write-both") else SignalRef("signal-A", "elsewhere")
+                enable = rb if kind in ("write-enable", "write-both") else SignalRef("signal-W", "elsewhere_w")
+                n = IRMemWrite("mem_m", data, enable)
+                ops_.append(n)
+                if data is ra:
+                    cons["c_a"].add(n.node_id)
+                    exp["c_a"] = True
+                if enable is rb:
+                    cons["c_b"].add(n.node_id)
+                    exp["c_b"] = True
+            else:
+                n = IREntityPropWrite("lamp", "enable" if kind == "entity-enable" else "recipe", ra)
+                ops_.append(n)
+                cons["c_a"].add(n.node_id)
+                exp["c_a"] = True
+            an = SignalAnalyzer(ProgramDiagnostics(log_level="error"), {}, referenced_signal_names=set())
+            # materialised: declared constants always; anonymous ones when exported or read by nobody
+            mat = {k: (declared or exp[k] or not cons[k]) for k in cons}
+            an._scenario = {"kind": kind, "declared": declared, "consumers": cons, "exported": exp, "materialised": mat}
+            out.append({"self": an, "ir_operations": ops_})
+    return out
